@@ -1,4 +1,5 @@
 import PegVerif.Proofs.FrontLemmas
+import PegVerif.Proofs.FrontFold
 /-
   C10 — the escape table (definitions and the kernel evaluation), split from Props/C10.lean only to
   keep each file's checking time low.  The theorems are stated in Props/C10.lean.
@@ -88,6 +89,18 @@ theorem escTable_checked :
 
 theorem nonEscapes_checked :
     nonEscapes.all (fun sp => frontCharCore pegLinked.G pegActs pegTable sp == none) = true := by
+  kernel_rfl
+
+/-- Kernel evaluation of the whole table once more, this time in a CASE-INSENSITIVE position (rule
+    `DoubleChar`: one character of a double-quoted literal or of a `[[…]]` class): every escape
+    spelling that denotes a code point `c` becomes `foldNode c` — `lower / upper` when `c` is a letter
+    (`\101`, `\0x61`, `\0x3b1`, …), the plain character otherwise. -/
+theorem escTable_fold_checked :
+    escTable.all (fun row => match row.2 with
+      | .cp c => match frontFoldCore pegLinked.G pegActs pegTable row.1 with
+        | some n => Node.beq n (foldNode c)
+        | none => false
+      | .err _ => (frontFoldCore pegLinked.G pegActs pegTable row.1).isNone) = true := by
   kernel_rfl
 
 end PegVerif
